@@ -335,7 +335,7 @@ Proof.
   rewrite <- (map_map mant_of (fun t => row_powers (len t, dot_cols t))).
   rewrite zip3_map, !map_map.
   apply map_ext_in. intros x Hx. rewrite Forall_forall in H. specialize (H x Hx).
-  unfold dec_row. rewrite (mant_head_neg plus x H), (mant_base plus x H), (mant_frac_digits plus x H).
+  unfold dec_row, m_frac_digits. rewrite (mant_head_neg plus x H), (mant_base plus x H), (mant_frac_digits plus x H).
   reflexivity.
 Qed.
 
